@@ -51,10 +51,12 @@ def handle (j : Json) : Except String Json := do
   let doc ← parseDoc (← j.getObjVal? "doc")
   let resJ (r : Res) : Json := Json.mkObj [("xsi", pairsJ r.xsi), ("bound", pairsJ r.bound)]
   let trace := (List.range (hist.length + 1)).map fun k => resJ (after sch true (hist.take k))
+  let traceR := (List.range (hist.length + 1)).map fun k => resJ (after sch false (hist.take k))
   let r := after sch true hist
   let r' := after sch false hist
   return Json.mkObj [
     ("trace", Json.arr trace.toArray),
+    ("trace_repaired", Json.arr traceR.toArray),
     ("obs", Json.arr ((call sch true r doc).2.map obsJ).toArray),
     ("fresh", Json.arr ((call sch true Res.init doc).2.map obsJ).toArray),
     ("obs_repaired", Json.arr ((call sch false r' doc).2.map obsJ).toArray),
